@@ -345,6 +345,10 @@ func main() {
 		modeProject(*in, *out, *stats)
 		return
 	}
+	if *mode == "addrfilter" {
+		modeAddrFilter(*in, *out, *stats)
+		return
+	}
 	if *mode == "sqlshape" {
 		modeSQLShape(*in, *out, *stats, *sampleN, *seed)
 		return
